@@ -10,6 +10,7 @@ skips = {
          "C05/m2": "obsolete: it mutated Cbrt's exactness test (operand copy z0), which the fix 'Cbrt finds exact roots in every rounding mode' replaced; it was detected by C05.R1 while it applied",
          "C11/m2": "obsolete: it mutated Cbrt's exactness test (operand copy z0), which the fix 'Cbrt finds exact roots in every rounding mode' replaced; it was detected by C05.R1/C11.R2 while it applied"},
     "-r2": {
+        "C04/m2": "obsolete for C04: it took Cbrt's working context from the caller, which made the range-reduction loop spin once the operand underflowed to zero; after the fix 'Cbrt works on the operand scaled to [1, 1000)' the loops run a handful of times whatever the context and the demonstration (a hang) no longer fails. The same edit still breaks C11 under narrow exponent ranges and is kept as seeded/C11-m1-r4 (identical patch); it was detected by C04.R4/C03.R6 while it applied",
         "C18/m2": "not confirmed: with the patch 3 stable baseline tests fail in this sandbox (the GDA runner shares one Context between goroutines)",
         "C04/m1": "manifests only for a target exponent of MaxInt32, outside the package limits (out of the property's domain)",
         "C17/m1": "manifests only for Exponent == MinInt32, outside the package limits (out of the property's domain)"},
